@@ -30,7 +30,7 @@ ASSUMPTIONS = [
     "ill-typed filter conditions (e.g. '#e': 'x', kinds: 5) are not judged (free); empty lists match nothing",
     "soundness uses inclusive since/until and accepts NIP-26 delegators and id/author prefixes as possible matches",
 ]
-MIN_NONTRIVIAL = {"quick": 200, "thorough": 2000}
+MIN_NONTRIVIAL = {"quick": 1000, "thorough": 10000}
 REQUIRED_COUNTERS = ["frames_judged", "shape_pairs_compared"]
 SHARD_TIMEOUT = {"quick": 500, "thorough": 3000}
 
@@ -38,7 +38,7 @@ SHARD_TIMEOUT = {"quick": 500, "thorough": 3000}
 def plan(tier, seed):
     shards = []
     if tier == "quick":
-        per_backend, stores, singles, multis = 8, 2, 70, 25
+        per_backend, stores, singles, multis = 8, 4, 150, 50
     else:
         per_backend, stores, singles, multis = 32, 6, 250, 80
     for backend in ("sql", "lmdb"):
